@@ -394,6 +394,8 @@ struct Local {
     fails: Vec<(String, String, String, String, String, String)>,
     fail_total: u64,
     sample: Vec<String>,
+    /// what happened in this process before the case (`after <workbooks opened> [t] `): part of the replay input
+    prefix: String,
 }
 
 impl Local {
@@ -404,6 +406,7 @@ impl Local {
         *self.counters.entry(k.into()).or_insert(0) += n;
     }
     fn fail(&mut self, kind: &str, sig: &str, input: &str, i: &str, m: &str, e: &str) {
+        let input = &format!("{}{}", self.prefix, input);
         self.fail_total += 1;
         let n = self.fails.iter().filter(|f| f.0 == kind && f.1 == sig).count();
         if n < 3 {
@@ -1289,12 +1292,183 @@ fn gen_helper(rng: &mut Rng) -> String {
     format!("helper {variant} {} {ty} {sys}", bits(v))
 }
 
+
+// ---------------------------------------------------------------------------------------------
+// the conversions are a function of the cell alone: other workbooks opened in this process, the
+// order of the calls and the thread must not matter
+// ---------------------------------------------------------------------------------------------
+
+const BOOKS: [&str; 7] = ["xlsx1904", "xlsxomit", "xlsx1900", "xls1904", "xls1900", "xlsb1904", "xlsb1900"];
+
+/// a tiny workbook (one sheet, one number) in the given format and date system, built in memory
+fn book_bytes(name: &str) -> Vec<u8> {
+    use verif_harness::{xlsbw, xlsw, xlsxw};
+    let is1904 = name.ends_with("1904");
+    if name.starts_with("xlsx") {
+        let mut b = xlsxw::XlsxBook::new();
+        b.date1904 = if name == "xlsxomit" { None } else { Some(is1904) };
+        let mut sh = xlsxw::XlsxSheet::new("S");
+        sh.set(0, 0, xlsxw::XCell::num("25569.5"));
+        b.sheets.push(sh);
+        b.build(&xlsxw::Layout::plain()).bytes
+    } else if name.starts_with("xlsb") {
+        let mut b = xlsbw::XlsbBook::new();
+        b.date1904 = is1904;
+        let mut sh = xlsbw::XlsbSheet::new("S");
+        sh.set(0, 0, xlsbw::BVal::real(25569.5));
+        b.sheets.push(sh);
+        b.to_bytes()
+    } else {
+        let mut b = xlsw::XlsBook::new();
+        b.date1904 = is1904;
+        let mut sh = xlsw::XlsSheet::new("S");
+        sh.cells.push(xlsw::XlsCell::new(0, 0, xlsw::CellV::Number(25569.5)));
+        b.sheets.push(sh);
+        b.to_bytes_plain(&mut Rng::new(1))
+    }
+}
+
+/// open the workbook with the real reader and read its sheet (the harness's own writers are tested
+/// elsewhere; here a workbook that does not read back is a broken check, not a finding)
+fn open_book(name: &str) {
+    use calamine::{Reader, Xls, Xlsb, Xlsx};
+    use std::io::Cursor;
+    let bytes = book_bytes(name);
+    let r: Result<Result<Data, String>, String> = guarded(|| {
+        let c = Cursor::new(bytes);
+        let range = if name.starts_with("xlsx") {
+            let mut wb = Xlsx::new(c).map_err(|e| format!("{e:?}"))?;
+            wb.worksheet_range("S").map_err(|e| format!("{e:?}"))?
+        } else if name.starts_with("xlsb") {
+            let mut wb = Xlsb::new(c).map_err(|e| format!("{e:?}"))?;
+            wb.worksheet_range("S").map_err(|e| format!("{e:?}"))?
+        } else {
+            let mut wb = Xls::new(c).map_err(|e| format!("{e:?}"))?;
+            wb.worksheet_range("S").map_err(|e| format!("{e:?}"))?
+        };
+        Ok(range.get_value((0, 0)).cloned().unwrap_or(Data::Empty))
+    });
+    match r {
+        Ok(Ok(Data::Float(f))) if f == 25569.5 => {}
+        other => panic!("the in-memory workbook {name} does not read back: {other:?}"),
+    }
+}
+
+/// the fixed slice of cases run after every change of the process history
+fn ambient_slice() -> Vec<String> {
+    let mut c = vec![];
+    for v in [25569.0, 0.0, 1.0, 59.0, 60.0, 61.0, 44484.7916666667, 2958465.0, -1.0, 1462.25] {
+        let b = bits(v);
+        c.push(format!("cell float {b} dt 1900"));
+        c.push(format!("cell int {b} dt 1900"));
+        c.push(format!("cell rfloat {b} dt 1900"));
+        c.push(format!("cell rint {b} dt 1900"));
+        c.push(format!("cell dt {b} dt 1900"));
+        c.push(format!("cell dt {b} td 1904"));
+        c.push(format!("cell rdt {b} dt 1904"));
+        c.push(format!("helper float {b} dt 1900"));
+        c.push(format!("helper int {b} dt 1900"));
+        c.push(format!("helper dt {b} dt 1900"));
+        c.push(format!("helper dt {b} td 1904"));
+        c.push(format!("dt 1900 {b}"));
+        c.push(format!("dt 1904 {b}"));
+    }
+    c.push("day 1900 25569".into());
+    c.push("day 1904 24107".into());
+    c
+}
+
+/// Single-threaded, after everything else (so that the process has opened no workbook before):
+/// every round changes the history (open a 1904 workbook / a 1900 one / nothing, in the three
+/// formats that carry a date system; later rounds at random), then runs the fixed slice and some
+/// random cells — on this thread or on a fresh one.  The model knows nothing of other workbooks:
+/// that is the specification.  Every failure carries the exact history as its replay input.
+fn ambient_phase(rounds: u64, drv: &mut Driver, loc: &mut Local, rng: &mut Rng) {
+    let script: [&str; 12] = ["-", "xlsx1904", "xlsxomit", "-", "xls1904", "xls1900", "-", "xlsb1904", "xlsb1900", "xlsx1900", "xlsx1904", "xls1900"];
+    let slice = ambient_slice();
+    let mut hist: Vec<String> = vec![];
+    for round in 0..rounds {
+        let step: &str = if (round as usize) < script.len() { script[round as usize] } else if rng.chance(1, 4) { "-" } else { *rng.pick(&BOOKS) };
+        if step != "-" {
+            open_book(step);
+            hist.push(step.to_string());
+            loc.count(&format!("ambient.open.{step}"));
+        } else {
+            loc.count("ambient.open.none");
+        }
+        let on_thread = round % 2 == 1;
+        loc.prefix = format!("after {} {}", if hist.is_empty() { "-".to_string() } else { hist.join(",") }, if on_thread { "t " } else { "" });
+        let mut cases = slice.clone();
+        for _ in 0..60 {
+            cases.push(gen_cell(rng));
+            cases.push(gen_helper(rng));
+        }
+        loc.add("ambient.cases", cases.len() as u64);
+        if on_thread {
+            std::thread::scope(|sc| {
+                let (d, l) = (&mut *drv, &mut *loc);
+                sc.spawn(move || {
+                    for c in &cases {
+                        run_input(c, d, l);
+                    }
+                })
+                .join()
+                .expect("ambient thread");
+            });
+        } else {
+            for c in &cases {
+                run_input(c, drv, loc);
+            }
+        }
+    }
+    loc.prefix.clear();
+}
+
+/// order of the calls: a slice of serials ascending, then descending, then shuffled — each result is
+/// compared with the model every time, so a conversion that remembers earlier calls shows
+fn order_phase(drv: &mut Driver, loc: &mut Local, rng: &mut Rng) {
+    let mut pts: Vec<(f64, bool)> = vec![];
+    for n in 0..1500 {
+        pts.push((n as f64, false));
+        pts.push((n as f64 + 0.75, n % 2 == 0));
+        pts.push(((2_958_465 - n) as f64, true));
+    }
+    let mut desc = pts.clone();
+    desc.reverse();
+    let mut shuf = pts.clone();
+    rng.shuffle(&mut shuf);
+    for order in [&pts, &desc, &shuf, &pts] {
+        for chunk in order.chunks(1024) {
+            check_points(chunk, drv, loc, false);
+        }
+    }
+    loc.add("order_phase.points", 4 * pts.len() as u64);
+}
+
 // ---------------------------------------------------------------------------------------------
 // replay / corpus
 // ---------------------------------------------------------------------------------------------
 
 fn run_input(inp: &str, drv: &mut Driver, loc: &mut Local) {
     let p: Vec<&str> = inp.split(' ').collect();
+    if p[0] == "after" {
+        // "after <book,book,…|-> [t] <case>": open those workbooks first, in this process; `t` = run the case on a second thread
+        for b in p[1].split(',').filter(|b| *b != "-") {
+            open_book(b);
+        }
+        let on_thread = p[2] == "t";
+        let rest = p[if on_thread { 3 } else { 2 }..].join(" ");
+        loc.prefix = format!("after {} {}", p[1], if on_thread { "t " } else { "" });
+        if on_thread {
+            std::thread::scope(|sc| {
+                sc.spawn(|| run_input(&rest, drv, loc)).join().expect("case thread");
+            });
+        } else {
+            run_input(&rest, drv, loc);
+        }
+        loc.prefix.clear();
+        return;
+    }
     match p[0] {
         "dt" => check_points(&[(unbits(p[2]), p[1] == "1904")], drv, loc, true),
         "dur" => check_points(&[(unbits(p[1]), false)], drv, loc, true),
@@ -1405,6 +1579,10 @@ fn main() {
          (4) Data/DataRef cells (Int, Float, DateTime with both type flags and both systems, String, Bool, Empty, Error) through \
          as_datetime/as_date/as_time/as_duration vs model vs oracle; DateTimeIso/DurationIso strings built from random components \
          must give the components back (chrono's parser is not modelled). \
+         (5) the conversions are a function of the cell alone: a fixed slice of cells/points plus random cells is re-run after every \
+         change of the process history (opening in-memory 1904 / 1900 / attribute-less xlsx, xls, xlsb workbooks with the real readers, \
+         scripted then random), alternately on the main and on a fresh thread, and a slice of serials ascending / descending / shuffled; \
+         every result is compared with the model, which knows nothing of other workbooks; a failure's replay input carries the exact history. \
          non-trivial = a conversion that yields a date-time or duration; distinct by (kind, system, f64 bits / day / description)",
     );
     rep.notes.push(
@@ -1462,6 +1640,7 @@ fn main() {
             check_helper(&format!("helper int i{n} dt 1900"), &mut drv, &mut loc);
         }
         loc.add("boundary_cells", ncell);
+        order_phase(&mut drv, &mut loc, &mut Rng::new(args.seed ^ 0x0bde));
         loc.add("driver_requests", drv.requests);
         merge(&mut rep, loc, &mut all_hashes);
     }
@@ -1539,6 +1718,14 @@ fn main() {
         hs.into_iter().map(|h| h.join().expect("worker thread")).collect()
     });
     for loc in locals {
+        merge(&mut rep, loc, &mut all_hashes);
+    }
+    // process state: last, so that no workbook has been opened in this process before
+    {
+        let mut drv = Driver::spawn(&args.driver);
+        let mut loc = Local::default();
+        ambient_phase(if args.thorough() { 240 } else { 36 }, &mut drv, &mut loc, &mut Rng::new(args.seed ^ 0xa3b1e));
+        loc.add("driver_requests", drv.requests);
         merge(&mut rep, loc, &mut all_hashes);
     }
     let distinct = count_distinct(all_hashes);
